@@ -53,6 +53,59 @@ int main() {
 replay_bends.per_trace = True
 
 
+def replay_bendcount(job, obl, inputs, workdir):
+    """Native replay of the bend count charged by the REAL estimatedCostSpecific (static in makepath.cpp, reached by including
+    that translation unit) on the counterexample's points, with a real Router/ConnRef/VertInf; the charged count is recovered
+    from the returned cost and compared with the oracle table."""
+    try:
+        objs, fresh, params = inputs["objects"], inputs["fresh"], inputs["params"]
+        c, t = objs[fresh["curr"]], objs[fresh["tar"]]
+        dirs = int_from(params["costTarDirs"])
+        has_last = "last" in fresh and fresh["last"] in objs
+        l = objs[fresh["last"]] if has_last else None
+        P = lambda o: (cxx_double(o[".x"]), cxx_double(o[".y"]))
+    except Exception as e:
+        return False, "could not extract inputs from the trace: %r" % e
+    src = '''#include "libavoid/libavoid.h"
+#include "libavoid/makepath.cpp"
+#include <cstdio>
+#include <cmath>
+%s
+static int sgn(double a, double b) { return b > a ? 1 : (b < a ? -1 : 0); }
+int main() {
+  using namespace Avoid;
+  Router router(OrthogonalRouting); router.setRoutingParameter(segmentPenalty, 64.0);
+  ConnRef *conn = new ConnRef(&router);
+  Point curr(%s, %s), tar(%s, %s); %s
+  VertInf tv(&router, VertID(1, 1), tar, false);
+  unsigned dirs = %du;
+  double cost = estimatedCostSpecific(conn, %s, curr, &tv, dirs);
+  double dist = manhattanDist(curr, tar);
+  int charged = (int) std::lround((cost - dist) / 64.0);
+  int ix[9] = {0,0,1,0,2,0,0,0,3};
+  int bound;
+  %s
+  printf("estimatedCostSpecific: cost %%g = distance %%g + %%d bend(s) x 64; admissible bound %%d\\n", cost, dist, charged, bound);
+  if (charged > bound) { printf("REPRODUCED: the estimate charges more bends than the true minimum\\n"); return 1; }
+  printf("not reproduced\\n"); return 0; }
+''' % (minb.c_table(), P(c)[0], P(c)[1], P(t)[0], P(t)[1],
+       ("Point last(%s, %s);" % P(l)) if has_last else "",
+       dirs, "&last" if has_last else "nullptr",
+       ('''unsigned cd = 0; if (last.x == curr.x && curr.y < last.y) cd = 1; else if (last.y == curr.y && curr.x > last.x) cd = 2;
+  else if (last.x == curr.x && curr.y > last.y) cd = 4; else if (last.y == curr.y && curr.x < last.x) cd = 8;
+  if (dist == 0 || cd == 0) bound = 0; else { bound = 10; for (int k = 0; k < 4; ++k) if (dirs & (1u << k)) { int m = MINB[k][ix[cd]][sgn(curr.y, tar.y) + 1][sgn(curr.x, tar.x) + 1]; if (m < bound) bound = m; } }'''
+        if has_last else "bound = (curr.x != tar.x && curr.y != tar.y) ? 1 : 0;"))
+    lib = build_lib("libavoid", workdir, exclude=("makepath.cpp",))
+    rc, out = native_run(src, workdir, "replay_bendcount", extra=["-I", COLA], libs=[lib])
+    if rc is None:
+        return False, out
+    return rc == 1, out
+
+
+replay_bendcount.per_trace = True
+replay_bends_scene = replay_bendcount
+
+
 def jobs(tier):
     js = []
     pre = prelude("avoid_geomtypes.h")
@@ -69,11 +122,29 @@ def jobs(tier):
           'extern "C" int w_bends(void *curr, unsigned int currDir, void *dest, unsigned int destDir)\n' \
           '{ return Avoid::bends(*(const Avoid::Point *)curr, currDir, *(const Avoid::Point *)dest, destDir); }\n'
     spec = spec_header() + rd("bends.spec.c").replace("@MINB@", minb.c_table())
-    js.append(Job("bends", "U", spec, "h_bends", cxx=cxx, enforce="w_bends",
+    js.append(Job("bends", "U", spec, "h_bends", defines=["JOB_bends"], cxx=cxx, enforce="w_bends",
                   expect=[r'w_bends\.postcondition\.\d+', r'\.assertion\.\d+'],
                   slices=[consts, od, dr, dl, dv, bn],
                   domain="all non-NaN doubles (incl. +-inf, +-0), all 16 single-bit (currDir,destDir) pairs, curr != dest",
                   replay=replay_bends, timeout=300))
+    # ---- the bend count charged by estimatedCostSpecific (middle fragment), bends behind its contract
+    ecs = slice_func(MP, r'^static double estimatedCostSpecific\(ConnRef \*lineRef, const Point \*last,', "estimatedCostSpecific")
+    odc = slice_func(MP, r'^static unsigned int orthogonalDirectionsCount\(const unsigned int directions\)', "orthogonalDirectionsCount")
+    frag = fragment_between(ecs, r'int bendCount = 0;', r'double penalty = bendCount \*', "estimatedCostSpecific [from `int bendCount = 0;` to the penalty line]")
+    # the fragment sits inside `else { ... }` of the routing-type test: it is taken from the else block's body
+    cxx2 = ("#include <verif_base.h>\n#include <algorithm>\n" + pre + 'extern "C" int w_bends(void *curr, unsigned int currDir, void *dest, unsigned int destDir);\n'
+            "namespace Avoid {\n" + consts.text + "\n" + od.text + "\n" + odc.text + "\n"
+            "int bends(const Point& curr, unsigned int currDir, const Point& dest, unsigned int destDir)\n"
+            "{ return w_bends((void *)&curr, currDir, (void *)&dest, destDir); }\n"
+            "// free variables of the fragment become parameters, with the types they have in estimatedCostSpecific\n"
+            "static int verif_bendcount(const Point *last, const Point& curr, Point costTarPoint, double dist, const unsigned int costTarDirs)\n{\n" +
+            frag.text + "\n    return bendCount;\n}\n}\n"
+            'extern "C" int w_bendcount(void *last, void *curr, void *tar, double dist, unsigned int costTarDirs)\n'
+            '{ return Avoid::verif_bendcount((const Avoid::Point *)last, *(const Avoid::Point *)curr, *(const Avoid::Point *)tar, dist, costTarDirs); }\n')
+    js.append(Job("estimatedCost_bendcount", "U", spec, "h_bendcount", cxx=cxx2, enforce="w_bendcount", replace=["w_bends"], defines=["JOB_bendcount"],
+                  slices=[ecs, frag, od, odc], replay=replay_bends_scene, flags=["--sat-solver", "cadical"], backend="sat:cadical",
+                  domain="all finite doubles, every costTarDirs bit set, with or without a previous point; bends replaced by its contract",
+                  expect=[r'w_bendcount\.postcondition', r'w_bends\.precondition|precondition']))
     return js
 
 
